@@ -181,9 +181,17 @@ def num_value(lit):
         return None
 
 
+PRIM_TYPES = {"f32", "f64", "u8", "u16", "u32", "u64", "u128", "usize", "i8", "i16", "i32", "i64", "i128", "isize", "bool", "char", "str"}
+
+
 def fingerprint_tokens(body):
+    """normalised token stream: literals by value, operators, keywords, called names and capitalised names verbatim,
+    primitive type names verbatim; every other lowercase identifier (local variable, field, parameter) is replaced by its
+    first-occurrence number within the function, so that a consistent renaming is invisible but using one variable in
+    the place of another (u for v, lambda_l for lambda_r) is not"""
     keep = []
     n = len(body)
+    seen = {}
     for i, (k, v) in enumerate(body):
         if k == "num":
             f = num_value(v)
@@ -200,9 +208,13 @@ def fingerprint_tokens(body):
                 keep.append(v)
             elif nxt in ("(", "!") or (nxt == "::" and i + 2 < n and body[i + 2][1] == "<"):
                 keep.append(v + "()")
-            elif v[0].isupper():
+            elif v[0].isupper() or v in PRIM_TYPES:
                 keep.append(v)
-            # lowercase identifiers that are not called: local variable / field names -> dropped
+            else:
+                # lowercase identifiers that are not called: local variable / field names -> first-occurrence index
+                if v not in seen:
+                    seen[v] = len(seen)
+                keep.append("v%d" % seen[v])
         elif k in ("str", "chr"):
             continue
     return keep
